@@ -637,8 +637,9 @@ theorem C02_shell_refines_event (s : Sys.Sys F) (e : Sys.Ev) (hinv : ShellInv s)
 /-- **Which set operations each event constructor can perform on link `j`** (what `kopOk (evOps s e j)` means):
 * client datagram: only sends (a batch drained at the threshold) and a reset (tear-down after the failed send);
 * periodic flush: only sends;
-* housekeeping: only a reset (reconnect);
-* `setCfg` / `crit` / `failNext`: nothing;
+* housekeeping: only a reset (reconnect, with `reset_for_reconnect` or — failed socket re-creation —
+  `mark_for_recovery`);
+* `setCfg` / `crit` / `failNext` / `failBind`: nothing;
 * uplink datagram, by type code: SRT ACK 0x8002 — only cumulative ACKs; SRT NAK 0x8003 and SRTLA ACK 0x9100 —
   only single retirements; REG3 0x9202 and REG_ERR 0x9210 — only a reset, and only on the ARRIVAL link;
   any other type (keepalive, REG_NGP, REG2, data, unknown) and datagrams too short for a type code — nothing. -/
@@ -650,6 +651,7 @@ theorem C02_shell_event_kinds (s : Sys.Sys F) (e : Sys.Ev) (j : Nat) (k : KOp) (
     | .setCfg _ => False
     | .crit _ => False
     | .failNext _ => False
+    | .failBind _ => False
     | .uplink _ cid data =>
         ∃ pt, Codec.getPacketTypeS data = some pt ∧
           ((pt = 0x8002 ∧ ∃ a, k = .cumAck a) ∨ ((pt = 0x8003 ∨ pt = 0x9100) ∧ ∃ q, k = .retire q) ∨
@@ -682,21 +684,28 @@ theorem C02_shell_event_kinds (s : Sys.Sys F) (e : Sys.Ev) (j : Nat) (k : KOp) (
   | hk now =>
     cases k with
     | send q =>
-      have h : hkOps s.cfg.classic .take := hk
-      unfold hkOps at h
-      rcases h with h | h | h | h | h | ⟨h, -⟩ <;> cases h
+      rcases (hk : hkOpsAt s now j .take) with h | ⟨h, -⟩
+      · unfold hkOps at h
+        rcases h with h | h | h | h | h | ⟨h, -⟩ <;> cases h
+      · cases h
     | reset => rfl
     | cumAck a =>
-      have h : hkOps s.cfg.classic .srtAck := hk
-      unfold hkOps at h
-      rcases h with h | h | h | h | h | ⟨h, -⟩ <;> cases h
+      rcases (hk : hkOpsAt s now j .srtAck) with h | ⟨h, -⟩
+      · unfold hkOps at h
+        rcases h with h | h | h | h | h | ⟨h, -⟩ <;> cases h
+      · cases h
     | retire q =>
-      have h : hkOps s.cfg.classic .sack ∨ hkOps s.cfg.classic .nak := hk
-      unfold hkOps at h
-      rcases h with (h | h | h | h | h | ⟨h, -⟩) | (h | h | h | h | h | ⟨h, -⟩) <;> cases h
+      rcases (hk : hkOpsAt s now j .sack ∨ hkOpsAt s now j .nak) with (h | ⟨h, -⟩) | (h | ⟨h, -⟩)
+      · unfold hkOps at h
+        rcases h with h | h | h | h | h | ⟨h, -⟩ <;> cases h
+      · cases h
+      · unfold hkOps at h
+        rcases h with h | h | h | h | h | ⟨h, -⟩ <;> cases h
+      · cases h
   | setCfg cfg => cases k <;> first | exact hk | (rcases hk with h | h | h <;> exact h) | (rcases hk with h | h <;> exact h)
   | crit d => cases k <;> first | exact hk | (rcases hk with h | h | h <;> exact h) | (rcases hk with h | h <;> exact h)
   | failNext c => cases k <;> first | exact hk | (rcases hk with h | h | h <;> exact h) | (rcases hk with h | h <;> exact h)
+  | failBind c => cases k <;> first | exact hk | (rcases hk with h | h | h <;> exact h) | (rcases hk with h | h <;> exact h)
   | uplink now cid data =>
     have arr : ∀ {p : Prop}, ((s.links.findIdx? (·.core.connId == cid) == some j) = true ∧ p) →
         s.links.findIdx? (·.core.connId == cid) = some j := fun h => by simpa using h.1
